@@ -2,6 +2,9 @@
 import numpy
 
 
+FIXED_DIM = {"KMeansL1L2-L1-array-init"}      # configurations tied to the 3 features of datasets()['X']
+
+
 def datasets(seed=0):
     rs = numpy.random.RandomState(seed)
     X = rs.randn(40, 3)
@@ -49,6 +52,9 @@ def configs(inner=None):
         "ConstraintKMeans-nok0": (lambda: mm.ConstraintKMeans(3, strategy="distance", random_state=0, max_iter=10, kmeans0=False), "none", False, "predict"),
         "KMeansL1L2-L1": (lambda: mm.KMeansL1L2(3, norm="L1", random_state=0, n_init=2), "none", False, "predict"),
         "KMeansL1L2-L2": (lambda: mm.KMeansL1L2(3, norm="L2", random_state=0, n_init=2), "none", False, "predict"),
+        # explicit initial centres: n_init is then ignored by the L1 fit (it must not be overwritten)
+        "KMeansL1L2-L1-array-init": (lambda: mm.KMeansL1L2(3, norm="L1", random_state=0, n_init=4,
+                                                           init=numpy.array([[0., 0., 1.], [1., -1., 0.5], [-1., 1., 0.2]])), "none", False, "predict"),
         "PiecewiseRegressor": (lambda: mm.PiecewiseRegressor(DecisionTreeRegressor(max_depth=2, random_state=0), reg()), "reg", True, "predict"),
         "PiecewiseRegressor-bins": (lambda: mm.PiecewiseRegressor("bins", reg()), "reg", True, "predict"),
         "PiecewiseClassifier": (lambda: mm.PiecewiseClassifier("bins", clf(), random_state=0), "clf", True, "predict_proba"),
